@@ -369,11 +369,43 @@ def draw_helpers_always_draw(index: RepoIndex, rep, rule: str) -> None:
         for r in (e for e in w.events if e.kind == 'return' and e.value is not None):
             if isinstance(r.value, ast.Constant) and r.value.value is None:
                 continue
+            if isinstance(r.value, (ast.List, ast.Tuple, ast.Set, ast.Dict)) and \
+                    not ast.unparse(r.value).strip('[](){} '):
+                continue          # "nothing drawn" for a request of nothing: no value answered
             before = [d for d in draws if d.order <= r.order]
             ok = any(prop_implies(strip_iter(r.guard), strip_iter(d.guard)) is None
                      for d in before)
             if not ok:
                 bad.append(r)
+        # a shortcut is refuted only where the wrapped draw is shown to refuse: the guard of
+        # the return makes the half-open range of `rng.integers(a, b)` empty
+        proved = []
+        for b_ in bad:
+            g_ = show(strip_iter(b_.guard)).replace(' ', '').strip('()')
+            for d in draws:
+                if d.node.func.attr != 'integers' or len(d.node.args) < 2:
+                    continue
+                kw_ = {k.arg: k.value for k in d.node.keywords}
+                if 'endpoint' in kw_ and src(kw_['endpoint']) != 'False':
+                    # an option of the helper that defaults to half-open, with a caller in the
+                    # package that leaves it out
+                    ep = kw_['endpoint']
+                    dflt = f.param_defaults().get(ep.id) if isinstance(ep, ast.Name) else None
+                    if not (isinstance(dflt, ast.Constant) and dflt.value is False and any(
+                            isinstance(c_, ast.Call) and src(c_.func).split('.')[-1] == name
+                            and ep.id not in {k.arg for k in c_.keywords}
+                            and len(c_.args) <= ps.index(ep.id)
+                            for m_ in index.modules.values() for c_ in ast.walk(m_.tree))):
+                        continue
+                a_, c_ = (src(x).replace(' ', '') for x in d.node.args[:2])
+                if g_ in (f'{a_}=={c_}', f'{c_}=={a_}', f'{a_}>={c_}', f'{c_}<={a_}'):
+                    proved.append(b_)
+                    break
+        for b_ in bad:
+            if b_ not in proved:
+                rep.undecided(rule, f'{rel}:{name}', f'returns `{src(b_.value)[:40]}` under '
+                              f'`{show(strip_iter(b_.guard))[:60]}` without drawing')
+        bad = proved
         rep.check(not bad, rule, rel, name, f.node.lineno,
                   '; '.join(src(b.stmt)[:60] for b in bad) or f'{name} draws on every path',
                   f'{name} returns `{src(bad[0].value)[:40] if bad else ""}` under '
